@@ -184,7 +184,7 @@ def drive(v, tier, seed):
                         "reference was dropped and its work finished (leak)"}[rc]
             fails = re.findall(r"ORACLE-FAIL C17 (.*)", err)
             p = save_replay(PROP, "fail_%d.ndjson" % r["s"], src=tr) if os.path.exists(tr) else tr
-            more = explain(tr, "%s_ex%d" % (PROP, r["i"])) if os.path.exists(tr) else ""
+            more = explain(tr, "%s_ex%d" % (PROP, r["i"])) if rc != 2 and os.path.exists(tr) else ""
             v.violation("%s (%s): %s%s" % (what, desc, "; ".join(fails[:3]) or err.strip()[-300:], more), p)
             continue
         if rc != 0:
